@@ -42,7 +42,7 @@ def touch (r : GOut Unit × TW) : GOut Unit × TW :=
   | .ok _ _ => (r.1, { r.2 with valid := false })
   | .exc _ => r
 
-/-- `TreeGraphImpl::setFather(node, father)` (TreeGraphImpl.h:399) with the observers told -/
+/-- `TreeGraphImpl::setFather(node, father)` (TreeGraphImpl.h:410) with the observers told -/
 def setFatherG (tw : TW) (n f : Nat) : GOut Unit × TW :=
   if !tw.w.g.hasNode f then (.exc tw.w.g, tw) else
   match T.hasFather tw.w.g n with
@@ -56,7 +56,7 @@ def setFatherG (tw : TW) (n f : Nat) : GOut Unit × TW :=
       else (.ok () tw.w.g, tw)
     touch (andThen step1 (fun _ t1 => unit (t1.liftW (t1.w.g.link f n))))
 
-/-- `TreeGraphImpl::addSon(node, son)` (TreeGraphImpl.h:422) -/
+/-- `TreeGraphImpl::addSon(node, son)` (TreeGraphImpl.h:433) -/
 def addSonG (tw : TW) (n s : Nat) : GOut Unit × TW := touch (unit (tw.liftW (tw.w.g.link n s)))
 
 /-- result of an object-level call -/
